@@ -167,7 +167,7 @@ type vC04Req struct {
 
 var vC04Methods = []string{"GET", "POST", "PATCH", "DELETE", "PUT", "OPTIONS", "HEAD"}
 var vC04Placements = []string{"none", "basic", "bearer-up", "bearer-token", "query"}
-var vC04PlaybackPaths = []string{"cam1", "cam1", "cam2", "cam1", "", "../secret", "cam1/../cam2", "/cam1", "cam 1", "~cam", "cam1/"}
+var vC04PlaybackPaths = []string{"cam1", "cam1", "cam2", "cam1", "cam3", "", "../secret", "cam1/../cam2", "/cam1", "cam 1", "~cam", "cam1/"}
 
 func vC04Instantiate(pattern, marker string) string {
 	parts := strings.Split(pattern, "/")
@@ -463,8 +463,11 @@ func vC04Run(t *testing.T, sp vC04Spec, mgr *auth.Manager) {
 		go func() {
 			defer wg.Done()
 			for q := range ch {
-				hr := q.build(sp)
-				res, err := hc.Do(hr)
+				res, err := hc.Do(q.build(sp))
+				for try := 0; err != nil && try < 2; try++ { // e.g. the server closed an idle connection under us
+					time.Sleep(50 * time.Millisecond)
+					res, err = hc.Do(q.build(sp))
+				}
 				if err != nil {
 					q.err = err.Error()
 				} else {
